@@ -36,6 +36,10 @@ LEVEL = {
          "8 component shapes; equal-rank repeats (None / Times(0)) accept any maximal element", TECH % ("", "")),
  "C20": ("model_checking", "6 C20", "Unbounded repeat count in Apalache (u32 wrap is a negative control); exact-tick traces incl. Times(u32::MAX) and the f32 neighbours of every boundary recorded in debug AND release builds must be identical and accepted by TLC; object histories with huge repeat counts replayed in both profiles; supplementary arbitrary-f32 sweep (no panic, finite, in range, equal digests).",
          "domain: exact total duration representable in f32; the arbitrary-f32 sweep is an oracle-only supplement", TECH % (" and Apalache", " and by TLC validating traces recorded from the real code in both build profiles (leg B)")),
+ "C13": ("model_checking", "6 C13", "Model facts on the published control points (end points, x-monotone, range/monotone for non-Back, mirror relations); each real easing is compared with the exact definition table and with the as-found parameter evaluation (known finding per Bezier easing: calc evaluates the curve at parameter t = x); the dense sweep of the real calc is validated by TLC against the laws; custom easings bit for bit.",
+         "65 exact curve points per easing, tolerance 2e-4; laws on a 1/1024 grid + 2^-k neighbourhoods; open known findings listed in known_findings.json", TECH % ("", " and by TLC validating logs of the real functions (leg B)")),
+ "C14": ("model_checking", "6 C14", "Laws model-checked on the exact integer model for all 8-bit pairs; every recorded result of the real lerp for all numeric types (exact values, scaled wide values, f32 neighbours of 0, 1/2 and 1, mixed magnitudes) is validated by TLC; panics are data and rejected.",
+         "see assumptions in the evidence: exactness rule tied to f32 representability; Quat not claimed", TECH % ("", " and by TLC validating logs of the real functions (leg B)")),
 }
 NA = {}
 for i in range(1, 21):
